@@ -30,3 +30,5 @@ def run(ctx, R):
     rv64.rule_cbr(ctx, R, F)
     rv64.rule_branch_forms(ctx, R)
     jit.rule_lw_sib(ctx, R, 'rvv', F)
+    for arch_ in ('x86', 'a64', 'rv64', 'rvv'):
+        jit.rule_lw_value(ctx, R, arch_)
